@@ -247,6 +247,8 @@ impl<'a> Tokinizer<'a> {
 
         while index < self.tokens.len() {
             match self.tokens[index].deref() {
+                /* A closing parenthesis ends an operand, a literal right behind it ('(1)+5', '(1) 5') is added */
+                TokenType::Operator(')') => operator_required = true,
                 TokenType::Operator(_) => operator_required = false,
                 _ => {
                     if operator_required {
